@@ -75,7 +75,7 @@ def plan(prop, tier):
                 "(b) baton-scheduler schedules: 2-4 submitter threads + ring thread (+ simulated SQPOLL kernel thread) on 1-8 entry queues, kernel consuming/completing at every entry, "
                 "seeded random-walk and PCT schedules switching at the a10_verif scheduling points; non-trivial = at least 2 context switches; distinct = hash of the switch sequence + configuration")
         if tier == "quick":
-            jobs = [gen_job("c04", "native-debug", 100, 16, timeout=400)]
+            jobs = [gen_job("c04", "native-debug", 100, 16, timeout=400), gen_job("c04free", "tsan", 8, 4, timeout=600)]
         else:
             jobs = [gen_job("c04", "native-debug", 2500, 16, timeout=3000), gen_job("c04", "native-release", 2500, 16, timeout=3000),
                     gen_job("c04", "asan", 300, 16, timeout=3000), gen_job("c04free", "tsan", 40, 8, timeout=3000)]
